@@ -426,3 +426,70 @@ func VerifC10FilesToText() {
 	verifAssert(got == want0+want1, "C10/printed-text-of-two-files-holds-other-documents")
 	verifCover("C10/files-to-text/end")
 }
+
+// VerifC10ParametersPerDocument: one parsed expression serves every document of a run; a parameter that is computed
+// from the document (an interpolated pattern, a computed index or key, a variable) is computed afresh for each:
+// the stream over two or three documents with different contents equals the per-document runs.
+func VerifC10ParametersPerDocument() {
+	exprs := []string{".p as $p | [.items[] | select(test(\"^\\($p)\"))]", "[.items[] | sub(\"\\(.p)\"; \"-\")]", ".items | map(capture(\"(?P<x>\\(parent | parent | .p))\") | .x)",
+		".items[.n]", ".items | pick([.n])", "[.items[] | match(\"\\(.p)\") | .offset]", ".p as $k | {$k: .n}", ".items | .[.n:]", "\"\\(.p)-\\(.n)\"", ".items | join(.p)", "[.items[] | split(.p) | length]"}
+	which := verifChoice("expr", len(exprs))
+	pool := [][3]string{{"a", "0", "ab"}, {"b", "1", "ba"}, {"ab", "2", "abab"}}
+	n := 2 + verifChoice("docs", 2)
+	var docs []*CandidateNode
+	var picks []int
+	for i := 0; i < n; i++ {
+		k := verifChoice("doc"+verifItoa(int64(i)), len(pool))
+		picks = append(picks, k)
+	}
+	mk := func(k int) *CandidateNode {
+		return vDoc(vMap(vStr("p"), vStr(pool[k][0]), vStr("n"), vInt(pool[k][1]), vStr("items"), vSeq(vStr(pool[k][2]), vStr("b"+pool[k][0]), vStr("zz"))))
+	}
+	for _, k := range picks {
+		docs = append(docs, mk(k))
+	}
+	var events []string
+	var out bytes.Buffer
+	printer := NewPrinter(&c10Encoder{events: &events}, NewSinglePrinterWriter(&out))
+	dec := &c10Decoder{file: -1, files: [][]*CandidateNode{docs}}
+	exp := vParse(exprs[which])
+	_, err := NewStreamEvaluator().Evaluate("f.yml", nil, exp, printer, dec)
+	label := "expr=" + exprs[which]
+	var want []string
+	failed := false
+	for i, k := range picks {
+		d := mk(k)
+		d.document = uint(i)
+		res, e := vEval(vParse(exprs[which]), d)
+		if e != nil {
+			failed = true
+			break
+		}
+		for _, r := range vNodes(res) {
+			if len(want) > 0 && i > 0 {
+				want = append(want, "SEP")
+			}
+			want = append(want, "NODE "+vDump(r))
+		}
+	}
+	verifAssert((err != nil) == failed, "C10/stream-fails-where-the-documents-alone-do-not "+label)
+	if err != nil || failed {
+		verifCover("C10/params/error")
+		return
+	}
+	got := ""
+	for _, e := range events {
+		if e != "SEP" {
+			got += e + "; "
+		}
+	}
+	exp2 := ""
+	for _, e := range want {
+		if e != "SEP" {
+			exp2 += e + "; "
+		}
+	}
+	verifObserve("got", got)
+	verifAssert(got == exp2, "C10/result-for-a-document-depends-on-an-earlier-document "+label)
+	verifCover("C10/params/end")
+}
